@@ -305,8 +305,8 @@ type Live struct {
 
 type nopRecorder struct{}
 
-func (nopRecorder) Event(runtime.Object, string, string, string)                    {}
-func (nopRecorder) Eventf(runtime.Object, string, string, string, ...interface{})  {}
+func (nopRecorder) Event(runtime.Object, string, string, string)                  {}
+func (nopRecorder) Eventf(runtime.Object, string, string, string, ...interface{}) {}
 func (nopRecorder) AnnotatedEventf(runtime.Object, map[string]string, string, string, string, ...interface{}) {
 }
 
